@@ -162,7 +162,9 @@ type rec struct {
 	posts int // parked long POSTs
 	// With a timeout and no POST in flight the session is certainly alive before lo and
 	// certainly dead after hi. lo = end of last POST + timeout. hi >= lo accounts for the
-	// documentation ("no new HTTP requests") being read as GET also postponing expiry.
+	// documentation ("no new HTTP requests") being read as GET also postponing expiry, and for
+	// the property not fixing the instant of expiry (hi = lo + grace: a sweeper or a lazily
+	// evaluated deadline closes an idle session a little later than a timer per session).
 	lo, hi    time.Duration
 	maybeDead bool // a request raced with the idle timer: may already be gone
 	gets      []*memhttp.Exchange
@@ -341,18 +343,22 @@ func (w *world) kill(r *rec, cause string) {
 	r.state, r.cause = stDead, cause
 }
 
+// grace is how much later than "idle for SessionTimeout" a session may still be around: the
+// documentation promises closing after the idle period, not the instant (one more timeout).
+func (w *world) grace() time.Duration { return w.timeout }
+
 // touchPOST records that a POST to r ended now and r is known to be alive.
 func (w *world) touchPOST(r *rec) {
 	r.maybeDead = false
 	if r.posts == 0 {
 		r.lo = w.now() + w.timeout
-		r.hi = r.lo
+		r.hi = r.lo + w.grace()
 	}
 }
 
 func (w *world) touchGET(r *rec) {
 	r.maybeDead = false
-	if h := w.now() + w.timeout; h > r.hi {
+	if h := w.now() + w.timeout + w.grace(); h > r.hi {
 		r.hi = h
 	}
 }
@@ -524,7 +530,9 @@ func (w *world) headerRule() (minted map[*memhttp.Exchange]string) {
 func (w *world) checkInvs(invs []inv) {
 	for _, in := range invs {
 		if w.s.Stateless {
-			if in.ssID != "" {
+			// honoured or issued = the carried id, or an id some response announced; an internal
+			// never-exposed ID() of the temporary session is neither
+			if in.ssID != "" && (in.ssID == in.carried || w.seen[in.ssID]) {
 				w.failf("stateless endpoint: %s (carrying %q) was handled by a session with id %q", in.method, in.carried, in.ssID)
 			}
 			continue
@@ -578,7 +586,9 @@ func (w *world) invariants() {
 			}
 			for _, g := range r.gets {
 				if g.HandlerDone() {
-					w.failf("the standalone GET stream of live session %q was ended by the server", r.id)
+					// a server may end an SSE stream of a live session at any time (the property is about
+					// the id, not about the stream): recorded only
+					w.label("standalone-GET-of-live-session-ended-by-server")
 				}
 			}
 		case stDead:
@@ -773,7 +783,7 @@ func (w *world) create(st Step) {
 		}
 	}
 	r.lo = w.now() + w.timeout
-	r.hi = r.lo
+	r.hi = r.lo + w.grace()
 	w.recs = append(w.recs, r)
 	w.byID[sid] = r
 }
@@ -948,8 +958,8 @@ func (w *world) request(method, sub, sid string, u int, keep bool) {
 	case "DELETE":
 		if r.posts > 0 {
 			// Close is graceful: it waits for the parked handlers; the session is shutting down meanwhile.
-			if ex.HandlerDone() && status != 204 {
-				w.failf("%s: status %d, want 204", what, status)
+			if ex.HandlerDone() && !is2xx(status) { // the success code of DELETE is not fixed anywhere
+				w.failf("%s: status %d, want 2xx", what, status)
 			}
 			if ex.HandlerDone() {
 				w.kill(r, "deleted")
@@ -959,12 +969,22 @@ func (w *world) request(method, sub, sid string, u int, keep bool) {
 			}
 			return
 		}
-		if status != 204 || !ex.HandlerDone() {
-			w.failf("%s: status %d (done=%v), want a completed 204", what, status, ex.HandlerDone())
+		if !is2xx(status) || !ex.HandlerDone() { // the success code of DELETE is not fixed anywhere
+			w.failf("%s: status %d (done=%v), want a completed 2xx", what, status, ex.HandlerDone())
 			return
 		}
 		w.kill(r, "deleted")
 	}
+}
+
+func is2xx(status int) bool { return status >= 200 && status <= 299 }
+
+// outcome is what a response means, without its incidental bytes: status, media type, and whether it
+// carries a JSON-RPC result or an error.
+func outcome(ex *memhttp.Exchange) string {
+	ct, _, _ := strings.Cut(ex.RespHeader().Get("Content-Type"), ";")
+	found, hasResult := reply(ex)
+	return fmt.Sprintf("%d %s response=%v result=%v", ex.Status(), strings.ToLower(strings.TrimSpace(ct)), found, hasResult)
 }
 
 func deadWhy(r *rec) string {
@@ -1136,7 +1156,7 @@ func (w *world) advRace(st Step) {
 		// had fired and the session closes behind the request.
 		r.maybeDead = true
 		r.lo = w.now() + w.timeout
-		r.hi = r.lo
+		r.hi = r.lo + w.grace()
 	default:
 		w.failf("POST ping at the expiry instant of session %q: status %d, want 2xx or 404", r.id, s)
 	}
@@ -1191,8 +1211,8 @@ func (w *world) race(st Step) {
 	fmt.Fprintf(&w.desc, "race/%s/%d/%d;", st.Sub, exD.Status(), exP.Status())
 	w.label(fmt.Sprintf("race:%s:del=%d,post=%d", st.Sub, exD.Status(), exP.Status()))
 	if exD.HandlerDone() {
-		if exD.Status() != 204 {
-			w.failf("DELETE of live session %q (racing a POST): status %d, want 204", r.id, exD.Status())
+		if !is2xx(exD.Status()) {
+			w.failf("DELETE of live session %q (racing a POST): status %d, want 2xx", r.id, exD.Status())
 		}
 		if r.posts > 0 {
 			r.state = stClosing // cannot happen with a graceful close; stay permissive
@@ -1277,7 +1297,9 @@ func (w *world) stateless(st Step) {
 		return
 	}
 	ctA, ctB := exA.RespHeader().Get("Content-Type"), exB.RespHeader().Get("Content-Type")
-	if exA.Status() != exB.Status() || ctA != ctB || string(exA.Written()) != string(exB.Written()) || (sub != "notif" && len(invsA) != len(invsB)) {
+	// "not honoured" = the same outcome (status, media type, result or error), not the same bytes: a response
+	// may vary in incidental ways (event ids, timestamps) between any two requests
+	if outcome(exA) != outcome(exB) || (sub != "notif" && len(invsA) != len(invsB)) {
 		// (a notification races with the end of its one-request session, so whether its handler runs is not compared)
 		w.failf("stateless POST %s carrying %s %q is not treated like the same request without it: status %d vs %d, content type %q vs %q, body %q vs %q, handler invocations %d vs %d",
 			sub, hdrSID, sid, exA.Status(), exB.Status(), ctA, ctB, exA.Written(), exB.Written(), len(invsA), len(invsB))
@@ -1304,7 +1326,9 @@ var theT *testing.T
 
 func run(s Script) (res vt.Result) {
 	if p := vt.Bubble(theT, func() { res = runInBubble(s) }); p != "" {
-		res.Failf("after all gates were opened, all client requests dropped and all sessions closed the bubble did not end (a request, Close or timer goroutine is stuck): %s", p)
+		// goroutines left behind after the case are not C11's business (a dead session with a request still
+		// hanging, or a DELETE that hangs, is reported by invariants() and race())
+		res.Class("teardown_leftover")
 	}
 	return res
 }
